@@ -1,0 +1,15 @@
+//go:build !verif
+
+package ucfg
+
+import "reflect"
+
+// Instrumentation stubs. With the verif build tag off these are empty and
+// inlined away; see verif_on.go.
+
+func verifResolve(*reference)               {}
+func verifLexer(bool)                       {}
+func verifGrow(int, int)                    {}
+func verifKeyOrder(string, string)          {}
+func verifKeyOrderRV(string, reflect.Value) {}
+func verifYield(string)                     {}
